@@ -205,7 +205,11 @@ package runtime
 //@   ensures implies(result1 == nil, failedDuring == old(failedDuring)) && implies(result1 != nil, failedDuring) && implies(old(failedDuring), failedDuring)
 
 // cacheStrings writes the cache: it is only called with the mutex held exclusively
-//@ func cacheStrings [C14]
+// C16: the lines handed to WriteString are exactly the lines of the text file - the file content split at line
+// feeds, nothing trimmed or dropped (a literal may begin or end with white space)
+//@ func cacheStrings [C14, C16]
+//@   let ALL = result0 @ after io.ReadAll#1
+//@   ensures {C16} implies(result1 == nil, len(result0) == len(split(ghost(ALL), "\n")) && forall(i, 0, len(result0), result0[i] == split(ghost(ALL), "\n")[i]))
 //@   requires xheld(watchStateMutex)
 //@   assume entry: watchModeCache != nil
 //@   modifies failedDuring
